@@ -4,6 +4,7 @@ import GV.Drv.Eval
 import GV.Drv.EvalSpec
 import GV.Drv.Compile
 import GV.Drv.Pool
+import GV.Drv.Lex
 open Lean GV.Drv
 
 def handle (line : String) : String :=
@@ -16,6 +17,7 @@ def handle (line : String) : String :=
     | "eval" => (evalCaseFull j).compress
     | "compile" => (compileCase j).compress
     | "pool" => (poolCase j).compress
+    | "lex" => (lexCase j).compress
     | s => (Json.mkObj [("i", jObj j "i"), ("error", Json.str s!"unknown scenario {s}")]).compress
 
 partial def loop (h : IO.FS.Stream) (out : IO.FS.Stream) : IO Unit := do
